@@ -235,6 +235,9 @@ class RunB(object):
             self.dirty.discard(name)
             if raced:
                 self.check()
+                if not self.viol:
+                    # ... and the list read now is a tracked list: read, append, save carries Tor's new lines and the new one
+                    self.probe(name)
                 self.viol = [(c, f + '/local-edit-pending', d) for c, f, d in self.viol]
                 self.skip = True
                 return
